@@ -7,6 +7,11 @@ package main
 // <dir>/README.md). README.md bytes, exit status and stdout are compared with (1) a reference
 // written here from the property's text and (2) the Coq model (oracle). A listed file that cannot
 // be read must make the tool fail without writing README.md.
+// Half of the directories are processed in a short HISTORY (2-3 runs of the tool in the same directory,
+// the list and the samples edited in between: entry removed / added, sample shortened / lengthened, a
+// file made unreadable and readable again, the list emptied): after EVERY run README.md must be, byte
+// for byte, the rendering of the CURRENT list (nothing of an older, longer README.md may survive), and
+// a failing run must leave README.md exactly as the previous run left it.
 
 import (
 	"fmt"
@@ -176,27 +181,122 @@ type c18Obs struct {
 }
 
 func c18Run(c *Ctx, k *c18Case, idx int) c18Obs {
+	return c18RunHistory(c, []*c18Case{k}, idx)[0]
+}
+
+// runs the steps of a history in ONE directory: before each run the samples and the list are replaced
+// by the step's, README.md is left as the previous run left it
+func c18RunHistory(c *Ctx, steps []*c18Case, idx int) []c18Obs {
 	dir := filepath.Join(c.Work, fmt.Sprintf("d%d", idx))
 	os.RemoveAll(dir)
 	os.MkdirAll(dir, 0o755)
 	defer os.RemoveAll(dir)
-	for name, content := range k.Files {
-		MustWrite(filepath.Join(dir, name), content)
+	var out []c18Obs
+	for _, k := range steps {
+		if ents, err := os.ReadDir(dir); err == nil {
+			for _, e := range ents {
+				if e.Name() != "README.md" {
+					os.RemoveAll(filepath.Join(dir, e.Name()))
+				}
+			}
+		}
+		for name, content := range k.Files {
+			MustWrite(filepath.Join(dir, name), content)
+		}
+		for _, d := range k.Dirs {
+			os.MkdirAll(filepath.Join(dir, d), 0o755)
+		}
+		MustWrite(filepath.Join(dir, "filelist.txt"), k.listText())
+		r := Run(c.Work, 20*time.Second, 0, nil, filepath.Join(c.Bin, "build_sample_md"), filepath.Join(dir, "filelist.txt"))
+		o := c18Obs{exit: r.Exit, stdout: r.Stdout, stderr: r.Stderr, timedOut: r.TimedOut}
+		if b, err := os.ReadFile(filepath.Join(dir, "README.md")); err == nil {
+			o.readme, o.hasReadme = string(b), true
+		}
+		out = append(out, o)
 	}
-	for _, d := range k.Dirs {
-		os.MkdirAll(filepath.Join(dir, d), 0o755)
+	return out
+}
+
+func (k *c18Case) clone() *c18Case {
+	w := *k
+	w.Entries = append([]c18Entry{}, k.Entries...)
+	w.Dirs = append([]string{}, k.Dirs...)
+	w.Files = map[string]string{}
+	for n, ct := range k.Files {
+		w.Files[n] = ct
 	}
-	MustWrite(filepath.Join(dir, "filelist.txt"), k.listText())
-	r := Run(c.Work, 20*time.Second, 0, nil, filepath.Join(c.Bin, "build_sample_md"), filepath.Join(dir, "filelist.txt"))
-	o := c18Obs{exit: r.Exit, stdout: r.Stdout, stderr: r.Stderr, timedOut: r.TimedOut}
-	if b, err := os.ReadFile(filepath.Join(dir, "README.md")); err == nil {
-		o.readme, o.hasReadme = string(b), true
+	return &w
+}
+
+func (k *c18Case) fileOf(e c18Entry) string {
+	if k.CRLF && !e.HasTitle {
+		return e.Name + "\r"
 	}
-	return o
+	return e.Name
+}
+
+// the next step of a history: the same directory after an edit (shrinking edits are favoured: the
+// new README.md is then shorter than the one already there)
+func c18Edit(r *Rng, k *c18Case, first *c18Case) (*c18Case, string) {
+	w := k.clone()
+	listed := func() []string {
+		var xs []string
+		for _, e := range w.Entries {
+			if _, ok := w.Files[w.fileOf(e)]; ok {
+				xs = append(xs, w.fileOf(e))
+			}
+		}
+		return xs
+	}
+	switch r.Intn(12) {
+	case 0, 1, 2:
+		if len(w.Entries) > 0 {
+			i := r.Intn(len(w.Entries))
+			w.Entries = append(w.Entries[:i], w.Entries[i+1:]...)
+			return w, "entry_removed"
+		}
+	case 3, 4:
+		if xs := listed(); len(xs) > 0 {
+			n := Choose(r, xs)
+			w.Files[n] = w.Files[n][:len(w.Files[n])/3]
+			return w, "content_shortened"
+		}
+	case 5:
+		keep := r.Intn(2)
+		if len(w.Entries) > keep {
+			w.Entries = w.Entries[:keep]
+			return w, "list_cut"
+		}
+	case 6:
+		if xs := listed(); len(xs) > 0 {
+			n := Choose(r, xs)
+			w.Files[n] += c18Content(r) + "more\n"
+			return w, "content_lengthened"
+		}
+	case 7:
+		e := c18Entry{Name: fmt.Sprintf("new%d.fo", r.Intn(100)), HasTitle: r.Bool(), Title: "Added later"}
+		w.Files[w.fileOf(e)] = c18Content(r)
+		at := r.Intn(len(w.Entries) + 1)
+		w.Entries = append(w.Entries[:at], append([]c18Entry{e}, w.Entries[at:]...)...)
+		return w, "entry_added"
+	case 8, 9:
+		if xs := listed(); len(xs) > 0 {
+			delete(w.Files, Choose(r, xs))
+			return w, "file_made_unreadable"
+		}
+	case 10:
+		if first != nil && first != k {
+			return first.clone(), "back_to_first_state"
+		}
+	}
+	return w, "rerun_unchanged"
 }
 
 // the property, checked directly on one observation ("" = holds)
-func c18Property(k *c18Case, o c18Obs) string {
+func c18Property(k *c18Case, o c18Obs) string { return c18PropertyAfter(k, o, c18Obs{}) }
+
+// prev: the observation of the previous run in the same directory (zero value: none, no README.md)
+func c18PropertyAfter(k *c18Case, o c18Obs, prev c18Obs) string {
 	want, processed, failName, ok := c18Reference(k.listText(), k.Files)
 	if o.timedOut {
 		return "the tool did not terminate"
@@ -213,6 +313,9 @@ func c18Property(k *c18Case, o c18Obs) string {
 			return "exit status 0 but README.md was not written"
 		}
 		if o.readme != want {
+			if prev.hasReadme && len(o.readme) > len(want) && o.readme[:len(want)] == want && strings.HasSuffix(prev.readme, o.readme[len(want):]) {
+				return fmt.Sprintf("README.md is the rendering of the current list followed by %d stale bytes of the README.md of the previous run: ...%q", len(o.readme)-len(want), c18Around(o.readme, want))
+			}
 			return fmt.Sprintf("README.md differs from header + sections in list order (first difference at byte %d): got %q, expected %q", c18FirstDiff(o.readme, want), c18Around(o.readme, want), c18Around(want, o.readme))
 		}
 		if o.stdout != wantOut.String() {
@@ -223,8 +326,11 @@ func c18Property(k *c18Case, o c18Obs) string {
 	if o.exit == 0 {
 		return fmt.Sprintf("listed file %q cannot be read but the tool exits with status 0", failName)
 	}
-	if o.hasReadme {
-		return fmt.Sprintf("listed file %q cannot be read but a README.md was written (%d bytes)", failName, len(o.readme))
+	if o.hasReadme != prev.hasReadme || o.readme != prev.readme {
+		if !prev.hasReadme {
+			return fmt.Sprintf("listed file %q cannot be read but a README.md was written (%d bytes)", failName, len(o.readme))
+		}
+		return fmt.Sprintf("listed file %q cannot be read but the README.md of the previous run was changed (%d -> %d bytes)", failName, len(prev.readme), len(o.readme))
 	}
 	if !strings.Contains(o.stderr, "Can't open file "+failName) {
 		return fmt.Sprintf("the failure does not name the first unreadable file %q: %s", failName, c18PanicLine(o.stderr))
@@ -349,11 +455,85 @@ func c18Check(c *Ctx, k *c18Case, o c18Obs, idx int) {
 	}
 }
 
+func c18HistoryReq(steps []*c18Case) string {
+	var runs []string
+	for _, k := range steps {
+		var fl []string
+		for _, name := range SortedKeys(k.Files) {
+			fl = append(fl, fmt.Sprintf("(%s %s)", Sq("D/"+name), Sq(k.Files[name])))
+		}
+		runs = append(runs, fmt.Sprintf("(%s (%s))", Sq(k.listText()), strings.Join(fl, " ")))
+	}
+	return "(history \"D\" (" + strings.Join(runs, " ") + "))"
+}
+
+func c18CheckHistory(c *Ctx, steps []*c18Case, edits []string, obs []c18Obs, idx int) {
+	var keys []string
+	for _, k := range steps {
+		keys = append(keys, fmt.Sprintf("%q|%v|%v", k.listText(), k.Files, k.Dirs))
+	}
+	c.Eval("history|"+strings.Join(keys, "||"), true)
+	c.Count(fmt.Sprintf("history_runs=%d", len(steps)))
+	for _, e := range edits {
+		c.Count("edit=" + e)
+	}
+	prev := c18Obs{}
+	for i, k := range steps {
+		if i > 0 {
+			want, _, _, ok := c18Reference(k.listText(), k.Files)
+			switch {
+			case !ok:
+				c.Count("rerun=failing_run_after_a_README")
+			case prev.hasReadme && len(want) < len(prev.readme):
+				c.Count("rerun=README_shrinks")
+			case prev.hasReadme && len(want) > len(prev.readme):
+				c.Count("rerun=README_grows")
+			default:
+				c.Count("rerun=README_same_length_or_first")
+			}
+		}
+		if bad := c18PropertyAfter(k, obs[i], prev); bad != "" {
+			// smallest history that still fails: the previous run and this one, in a fresh directory
+			rep := steps[:i+1]
+			ro := obs[:i+1]
+			if i > 1 {
+				two := []*c18Case{steps[i-1], steps[i]}
+				to := c18RunHistory(c, two, 200000+idx)
+				if b2 := c18PropertyAfter(two[1], to[1], to[0]); b2 != "" && c18PropertyAfter(two[0], to[0], c18Obs{}) == "" {
+					rep, ro, bad = two, to, b2
+				}
+			}
+			var lists, readmes []string
+			for j, st := range rep {
+				lists = append(lists, st.listText())
+				readmes = append(readmes, ro[j].readme)
+			}
+			c.Violate("history", fmt.Sprintf("run %d of a history in one directory: %s", len(rep), bad),
+				map[string]any{"history": rep, "filelists": lists, "readme_after_each_run": readmes, "exit_last": ro[len(ro)-1].exit, "stderr_last": c18PanicLine(ro[len(ro)-1].stderr)}, false)
+			return
+		}
+		prev = obs[i]
+	}
+	// model vs tool: README.md after every run
+	m := strings.Split(c.Oracle().Ask("C18", c18HistoryReq(steps)), "\t")
+	c.Compared(len(steps))
+	for i := range steps {
+		agree := i < len(m) && (m[i] == "none" && !obs[i].hasReadme || strings.HasPrefix(m[i], "ok ") && obs[i].hasReadme && Unsq(m[i][3:]) == obs[i].readme)
+		if !agree {
+			c.Disagree()
+			c.Violate("corr-history", fmt.Sprintf("model SampleMd.v (tool_history) and the tool disagree on README.md after run %d although the property holds", i+1),
+				map[string]any{"broken": "correspondence Driver/SampleMd.v history_files vs build_sample_md", "history": steps, "model": m, "readme": obs[i].readme}, true)
+			return
+		}
+	}
+}
+
 func runC18(c *Ctx) {
 	rng := NewRng(c.Seed)
 	c.Res.Rule = "directories with 0..12 list entries over 13 file names (with/without .fo, nested, multi-byte, %), titles (none, empty, with spaces, leading space, back-ticks, %), blank lines, CRLF lists, " +
 		"with/without final newline, missing files and directories in place of files, contents with fences, %, CRLF, no trailing newline; one process of the real tool per case; " +
-		"non-trivial = at least one entry; distinct by (list file bytes, files)"
+		"plus histories of 2-3 runs in one directory (edits between the runs: entry removed/added, sample shortened/lengthened, list cut to 0-1 entries, file made unreadable, back to the first state, unchanged re-run), README.md compared after every run; " +
+		"non-trivial = at least one entry; distinct by (list file bytes, files) per run"
 	var cases []*c18Case
 	if c.Replay != "" {
 		cases = c18LoadReplay(c.Replay)
@@ -379,13 +559,54 @@ func runC18(c *Ctx) {
 			&c18Case{Entries: []c18Entry{{Name: "a.fo"}}, Files: map[string]string{"a.fo": ""}, TrailingNL: true},
 			&c18Case{Entries: []c18Entry{{Name: "a.fo", HasTitle: true, Title: "T"}, {Name: "missing.fo", HasTitle: true, Title: "M"}}, Files: map[string]string{"a.fo": "x"}, TrailingNL: true},
 		)
-		for i, n := 0, c.Pick(180, 20000); i < n; i++ {
+		for i, n := 0, c.Pick(80, 10000); i < n; i++ {
 			cases = append(cases, c18Gen(rng))
 		}
 	}
+	// histories: 2-3 runs in one directory
+	var hist [][]*c18Case
+	var hedits [][]string
+	if c.Replay != "" {
+		if h := c18LoadReplayHistory(c.Replay); h != nil {
+			hist, hedits, cases = [][]*c18Case{h}, [][]string{nil}, nil
+		}
+	} else {
+		a := &c18Case{Entries: []c18Entry{{Name: "a.fo", HasTitle: true, Title: "First"}, {Name: "b.fo", HasTitle: true, Title: "Second"}, {Name: "c.fo", HasTitle: true, Title: "Third one"}},
+			Files: map[string]string{"a.fo": "let a () = 1\n", "b.fo": "let b () = 2\n", "c.fo": "let c () =\n  3\n"}, TrailingNL: true}
+		b := a.clone()
+		b.Entries = []c18Entry{{Name: "c.fo"}, {Name: "a.fo", HasTitle: true, Title: "First", Blank: 1}}
+		hist, hedits = append(hist, []*c18Case{a, b}), append(hedits, []string{"entry_removed"})
+		for i, n := 0, c.Pick(60, 6000); i < n; i++ {
+			first := c18Gen(rng)
+			for tries := 0; tries < 20; tries++ {
+				_, _, _, ok := c18Reference(first.listText(), first.Files)
+				if len(first.Entries) > 0 && (ok || rng.Chance(1, 8)) {
+					break
+				}
+				first = c18Gen(rng)
+			}
+			steps := []*c18Case{first}
+			var eds []string
+			for j, m := 0, 1+rng.Intn(2); j < m; j++ {
+				nx, ed := c18Edit(rng, steps[len(steps)-1], first)
+				steps, eds = append(steps, nx), append(eds, ed)
+			}
+			hist, hedits = append(hist, steps), append(hedits, eds)
+		}
+	}
+	hobs := make([][]c18Obs, len(hist))
 	obs := make([]c18Obs, len(cases))
-	Parallel(len(cases), func(i int) { obs[i] = c18Run(c, cases[i], i) })
+	Parallel(len(cases)+len(hist), func(i int) {
+		if i < len(cases) {
+			obs[i] = c18Run(c, cases[i], i)
+		} else {
+			hobs[i-len(cases)] = c18RunHistory(c, hist[i-len(cases)], i)
+		}
+	})
 	c.Lap("tool")
+	for i, h := range hist {
+		c18CheckHistory(c, h, hedits[i], hobs[i], i)
+	}
 	for i, k := range cases {
 		c18Check(c, k, obs[i], i)
 		if i%60 == 5 {
@@ -393,6 +614,27 @@ func runC18(c *Ctx) {
 		}
 	}
 	c.Lap("compare")
+}
+
+func c18LoadReplayHistory(path string) []*c18Case {
+	var doc struct {
+		Replay struct {
+			History []*c18Case `json:"history"`
+		} `json:"replay"`
+	}
+	b, err := os.ReadFile(path)
+	if err != nil {
+		panic(err)
+	}
+	if err := jsonUnmarshal(b, &doc); err != nil || len(doc.Replay.History) == 0 {
+		return nil
+	}
+	for _, k := range doc.Replay.History {
+		if k.Files == nil {
+			k.Files = map[string]string{}
+		}
+	}
+	return doc.Replay.History
 }
 
 func c18LoadReplay(path string) []*c18Case {
@@ -406,6 +648,9 @@ func c18LoadReplay(path string) []*c18Case {
 		panic(err)
 	}
 	if err := jsonUnmarshal(b, &doc); err != nil || doc.Replay.Case == nil {
+		if c18LoadReplayHistory(path) != nil {
+			return nil
+		}
 		panic("replay file has no case")
 	}
 	if doc.Replay.Case.Files == nil {
